@@ -98,11 +98,20 @@ class OpAdd(Op):
         self, data: Union[MutableSequence[object], MutableMapping[str, object]]
     ) -> Union[MutableSequence[object], MutableMapping[str, object]]:
         """Apply this patch operation to _data_."""
+        # Add a copy, so the patch does not share structure with the patched
+        # data and can be applied again.
+        return self._add(data, copy.deepcopy(self.value))
+
+    def _add(
+        self,
+        data: Union[MutableSequence[object], MutableMapping[str, object]],
+        value: object,
+    ) -> Union[MutableSequence[object], MutableMapping[str, object]]:
         parent, obj = self.path.resolve_parent(data)
         if parent is None:
             # Replace the root object.
             # The following op, if any, will raise a JSONPatchError if needed.
-            return self.value  # type: ignore
+            return value  # type: ignore
 
         target = self.path.parts[-1]
         if isinstance(parent, MutableSequence):
@@ -110,13 +119,13 @@ class OpAdd(Op):
                 # The index one past the end, spelled "-" or as a number. The
                 # number is a string if the pointer was built from parts.
                 if target == "-" or str(target) == str(len(parent)):
-                    parent.append(self.value)
+                    parent.append(value)
                 else:
                     raise JSONPatchError("index out of range")
             else:
-                parent.insert(int(target), self.value)
+                parent.insert(int(target), value)
         elif isinstance(parent, MutableMapping):
-            parent[_member_name(parent, target)] = self.value
+            parent[_member_name(parent, target)] = value
         else:
             raise JSONPatchError(
                 f"unexpected operation on {parent.__class__.__name__!r}"
@@ -146,22 +155,23 @@ class OpAddNe(OpAdd):
     ) -> Union[MutableSequence[object], MutableMapping[str, object]]:
         """Apply this patch operation to _data_."""
         parent, obj = self.path.resolve_parent(data)
+        value = copy.deepcopy(self.value)
         if parent is None:
             # Replace the root object.
             # The following op, if any, will raise a JSONPatchError if needed.
-            return self.value  # type: ignore
+            return value  # type: ignore
 
         target = self.path.parts[-1]
         if isinstance(parent, MutableSequence):
             if obj is UNDEFINED:
-                parent.append(self.value)
+                parent.append(value)
             else:
-                parent.insert(int(target), self.value)
+                parent.insert(int(target), value)
         elif (
             isinstance(parent, MutableMapping)
             and _member_name(parent, target) not in parent
         ):
-            parent[_member_name(parent, target)] = self.value
+            parent[_member_name(parent, target)] = value
         return data
 
 
@@ -183,19 +193,20 @@ class OpAddAp(OpAdd):
     ) -> Union[MutableSequence[object], MutableMapping[str, object]]:
         """Apply this patch operation to _data_."""
         parent, obj = self.path.resolve_parent(data)
+        value = copy.deepcopy(self.value)
         if parent is None:
             # Replace the root object.
             # The following op, if any, will raise a JSONPatchError if needed.
-            return self.value  # type: ignore
+            return value  # type: ignore
 
         target = self.path.parts[-1]
         if isinstance(parent, MutableSequence):
             if obj is UNDEFINED:
-                parent.append(self.value)
+                parent.append(value)
             else:
-                parent.insert(int(target), self.value)
+                parent.insert(int(target), value)
         elif isinstance(parent, MutableMapping):
-            parent[_member_name(parent, target)] = self.value
+            parent[_member_name(parent, target)] = value
         else:
             raise JSONPatchError(
                 f"unexpected operation on {parent.__class__.__name__!r}"
@@ -256,17 +267,18 @@ class OpReplace(Op):
     ) -> Union[MutableSequence[object], MutableMapping[str, object]]:
         """Apply this patch operation to _data_."""
         parent, obj = self.path.resolve_parent(data)
+        value = copy.deepcopy(self.value)
         if parent is None:
-            return self.value  # type: ignore
+            return value  # type: ignore
 
         if isinstance(parent, MutableSequence):
             if obj is UNDEFINED:
                 raise JSONPatchError("can't replace nonexistent item")
-            parent[int(self.path.parts[-1])] = self.value
+            parent[int(self.path.parts[-1])] = value
         elif isinstance(parent, MutableMapping):
             if obj is UNDEFINED:
                 raise JSONPatchError("can't replace nonexistent property")
-            parent[_member_name(parent, self.path.parts[-1])] = self.value
+            parent[_member_name(parent, self.path.parts[-1])] = value
         else:
             raise JSONPatchError(
                 f"unexpected operation on {parent.__class__.__name__!r}"
@@ -307,7 +319,7 @@ class OpMove(Op):
             del source_parent[_member_name(source_parent, self.source.parts[-1])]
 
         # The source value is added to the target location, as if by "add".
-        return OpAdd(self.dest, source_obj).apply(data)
+        return OpAdd(self.dest, None)._add(data, source_obj)  # noqa: SLF001
 
     def asdict(self) -> Dict[str, object]:
         """Return a dictionary representation of this operation."""
@@ -336,7 +348,9 @@ class OpCopy(Op):
 
         # A copy of the source value is added to the target location, as if
         # by "add".
-        return OpAdd(self.dest, copy.deepcopy(source_obj)).apply(data)
+        return OpAdd(self.dest, None)._add(  # noqa: SLF001
+            data, copy.deepcopy(source_obj)
+        )
 
     def asdict(self) -> Dict[str, object]:
         """Return a dictionary representation of this operation."""
